@@ -26,6 +26,10 @@ Definition bytes_str (l : list N) : string :=
 
 (* ---------- observations *)
 Record obsq := mkObs { o_val : Q; o_var : option Q; o_mult : Q; o_dims : dims; o_dtype : string }.
+(* the same with (multiplier, dimension, dtype) given as one triple: the few distinct triples of a run are
+   written once in the header of a case file (large literals are slow to read) *)
+Definition mkO (v : Q) (r : option Q) (u : Q * dims * string) : obsq :=
+  mkObs v r (fst (fst u)) (snd (fst u)) (snd u).
 Inductive sobs := SOk (iso : string) (fs : list (option obsq)) | SErr (cls : string).
 Inductive aobs := AOk (iso : string) (z : Z) (w m : option obsq) | AErr (cls : string).
 Inductive eobs := ESkip | EGroup (g : option string).   (* _parse_isotope_name: group, None = TypeError *)
@@ -160,3 +164,36 @@ Definition run (name : string) (l : list inp) : val O :=
 Definition check (c : kcase) : string :=
   cmp_out h mn (run (kname c) (kins c)) (kout c) (ktol c).
 End D.
+
+(* ---------- attenuation: the LAW itself, independent of the regenerated code.
+   What the implementation returned must be, in SI,  n (sigma_s + sigma_a lambda / (1.7982 angstrom))
+   of dimension 1/length, computed here over Q from the operands exactly as the implementation stored
+   them (value x unit multiplier; an integer operand is the integer it is).  The comparison with the
+   regenerated function above validates the semantic model of scipp (dtype, unit of the result, rounding
+   of integer conversions); this one states what the property demands, so an edit that the translator
+   follows faithfully (e.g. converting an integer wavelength to whole angstrom) still disagrees here. *)
+Definition d_invlength : dims := dscale (-1) d_m.
+Definition ref_wavelength_si : Q := ((17982 # 10000) * (1 # 10000000000))%Q.
+Definition si (i : inp) : Q := (iv i * isc i)%Q.
+Definition law_si (l : list inp) : option Q :=
+  match l with
+  | [n; ss; sa; wl] => Some (si n * (si ss + si sa * (si wl / ref_wavelength_si)))%Q
+  | _ => None
+  end.
+Definition check_law (c : kcase) : string :=
+  if negb (String.eqb (kname c) "attenuation") then ""
+  else match law_si (kins c), kout c with
+       | None, _ => "law-arity"
+       | Some want, OutVal v sc dm dt =>
+           if negb (deqb dm d_invlength) then "law-dimension"
+           else if rel_close (v * sc)%Q want (ktol c) then ""
+           else if rel_close (v * sc)%Q want (2 # 1000000)%Q then "law-value-single-precision-level"
+           else "law-value"
+       | Some _, OutErr cls => "law-impl-raises-" ++ cls
+       | Some _, OutNaN _ _ _ => "law-impl-NaN"
+       | Some _, OutInf _ _ _ => "law-impl-infinite"
+       | Some _, OutVec _ _ _ _ _ => "law-shape"
+       end.
+(* first the model of the code, then the law *)
+Definition check_both (c : kcase) : string :=
+  let r := check 1 1 c in if String.eqb r "" then check_law c else r.
